@@ -7,6 +7,7 @@ import CruxVerif.Lemmas.K2Evict
 import CruxVerif.Lemmas.EvictComplete
 import CruxVerif.Lemmas.FreshUse
 import CruxVerif.Lemmas.RRun
+import CruxVerif.Lemmas.Park
 namespace Props.C07
 open M.Rt
 
@@ -67,6 +68,32 @@ theorem stored_blocks_well_formed (c : Cmd) (canon : Bool) (acts : List M.Hosts.
   rcases ht with ht | ht
   · exact w.t cid t ht
   · exact w.s cid t ht
+
+/-- A POLL DOES NOT DISTURB THE PARKING OF OTHER TASKS: one poll of a host-free block `b0` (any waker, sink, fuel, world)
+    leaves every block `b1` that references none of `b0`'s channels (channels are unshared: C02) parked exactly where it
+    was — its waker still registered at every request / stream leaf and join-handle queue it is suspended at. With
+    `poll_parks` (the polled task parks itself) this is the induction step of "every stored task is queued or parked".
+    Frames LF / JF of Lemmas/PFrame.lean (one `grind` call each over `pollBlock`). -/
+theorem poll_keeps_others_parked (pn : Waker → Nat → World → Option (NextRes × World)) (f : Nat) (wk0 : Waker) (sink : Sink)
+    (b0 : Block) (w : World) (r : PollRes) (w' : World) (h : pollBlock pn f wk0 sink b0 w = some (r, w'))
+    (hf : hostFreeB b0 = true) (wk1 : Waker) (b1 : Block) (hr1 : inRangeB w.leaves.length w.metas.length b1 = true)
+    (hdis : ∀ l ∈ refsB b1, l ∉ refsB b0) (hp : LPB wk1 w b1) : LPB wk1 w' b1 :=
+  M.Rt.poll_keeps_others_parked pn f wk0 sink b0 w r w' h hf wk1 b1 hr1 hdis hp
+
+/-- WOKEN MEANS QUEUED: in a fresh world (every reachable world is: `serials_fresh_direct/_core`), after one poll of a
+    host-free task of a live command with the waker `run_task` hands out, if that poll's serial is flagged `woken` then the
+    task id IS on the command's ready queue — whoever woke it (a self-wake, a sibling finishing, an abort walking the chain).
+    So a task `run_task` keeps as `Suspended` because its waker was used during its own poll will be polled again. -/
+theorem woken_means_queued (pn : Waker → Nat → World → Option (NextRes × World)) (f : Nat) (cid tid : Nat) (w : World)
+    (b : Block) (r : PollRes) (w1 : World)
+    (h : pollBlock pn f (.task cid tid w.nextSerial) (.cmd cid) b { w with nextSerial := w.nextSerial + 1 } = some (r, w1))
+    (hf : hostFreeB b = true) (hs : SOk w) (hal : (w.cmd cid).alive = true) (hin : cid < w.cmds.length)
+    (hw : w.nextSerial ∈ w1.woken) : tid ∈ (w1.cmd cid).ready :=
+  M.Rt.woken_means_queued pn f cid tid w b r w1 h hf hs hal hin hw
+
+/-- a parked block whose waker was not used is parked at LIVE registrations (`LPB`: a pending self-wake does not count) -/
+theorem parked_unwoken_is_live (wk : Waker) (w : World) (hnw : ¬ wokenBy wk w) (b : Block) (h : ParkedB wk w b) : LPB wk w b :=
+  LPB_of_parked wk w hnw b h
 
 /-- one poll of a host-free block leaves the polling waker registered at every point the block is suspended at
     (or the point is a closed request), and touches other registrations only monotonically -/
